@@ -108,6 +108,37 @@ theorem narrow_pow_spec (maxv x e : Nat) (hm : maxv < 2 ^ 64) :
     · simp only [narrowPow, u64Pow_eq, h1, ↓reduceIte, Res.ok_bind, h, panicOnOverflowEnabled_dflt]; rfl
     · simp only [narrowPow, u64Pow_eq, h1, ↓reduceIte, overflowOutcome]; rfl
 
+/-! ## log -/
+
+/-- `u64/u32/u16/u8::log` is the instruction `mlog`: with panic-on-unsafe-math enabled it panics for
+`x = 0` or `base ≤ 1`, and otherwise returns `L` with `base^L ≤ x < base^(L+1)`. -/
+theorem u64_log_spec (fl : Flags) (hf : fl.unsafeMath = false) (x b : Nat) (hx : x < 2 ^ 64) :
+    (x = 0 ∨ b ≤ 1 → U128.u64Log fl x b = .panic .arithmeticError) ∧
+    (1 ≤ x → 2 ≤ b → ∃ L, U128.u64Log fl x b = .ok L ∧ b ^ L ≤ x ∧ x < b ^ (L + 1)) := by
+  constructor
+  · intro h; rw [u64Log_safe fl hf, if_pos h]
+  · intro h1 h2
+    have : ¬ (x = 0 ∨ b ≤ 1) := by omega
+    obtain ⟨i1, i2⟩ := ilogAux_spec b h2 64 x h1 hx
+    exact ⟨ilog b x, by rw [u64Log_safe fl hf, if_neg this], i1, i2⟩
+
+/-- `u256::log2` under default flags: reverts on 0, otherwise `2^r ≤ n < 2^(r+1)`. -/
+theorem log2_spec (n : Nat) (hn : n < 2 ^ 256) :
+    (n = 0 → u256Log2 {} n = .revert StdNum.FAILED_ASSERT) ∧
+    (n ≠ 0 → ∃ r, u256Log2 {} n = .ok r ∧ 2 ^ r ≤ n ∧ n < 2 ^ (r + 1)) := by
+  constructor
+  · intro h; rw [u256Log2_safe {} rfl n hn, if_pos h]
+  · intro h
+    exact ⟨Nat.log2 n, by rw [u256Log2_safe {} rfl n hn, if_neg h], Nat.log2_self_le h, Nat.lt_log2_self⟩
+
+/-- `u256::log` under default flags (the code after the `fix:` commit): reverts for `base < 2` or
+`self = 0`; otherwise the estimate `log2(self)/log2(base)` is an over-estimate, the correction loop
+terminates within its fuel and returns the floor logarithm `L`: `base^L ≤ self < base^(L+1)`. -/
+theorem log_spec (x b : Nat) (hx : x < 2 ^ 256) (hb : b < 2 ^ 256) :
+    (b < 2 ∨ x = 0 → u256Log {} x b = .revert StdNum.FAILED_ASSERT) ∧
+    (2 ≤ b → 1 ≤ x → ∃ L, u256Log {} x b = .ok L ∧ b ^ L ≤ x ∧ x < b ^ (L + 1)) :=
+  u256Log_dflt x b hx hb
+
 /-! ## collections -/
 
 /-- Every operation of the `{buf, cap, len}` machine refines the `List` operation: under the
@@ -232,6 +263,8 @@ example : U128.add {} ⟨MAX64, MAX64⟩ ⟨0, 1⟩ = .revert StdNum.FAILED_ASSE
 example : U128.sub {} ⟨1, 0⟩ ⟨0, 1⟩ = .ok ⟨0, MAX64⟩ := by decide
 example : (U128.mul {} ⟨0, 2⟩ ⟨MAX64, 1⟩).reverts = true := by decide
 example : u256Sqrt {} 17 = .ok 4 := by decide
+/-- regression witness for the `log` defect: 3^5 = 243 ≤ 255 < 3^6 -/
+example : u256Log {} 255 3 = .ok 5 := by decide
 example : (run Vec.new [.push 1, .push 2, .remove 0, .iter, .remove 1]).1 = [1, 2, 1, 2, 1] := by decide
 
 end SwayVerif.C27
